@@ -495,7 +495,7 @@ proof fn lemma_cell_2(l: u8, d: u8)
     assert(a1_cell(s, 1));
     lemma_cell_of(s, 1);
 }
-//@@ fn src/xlsx/mod.rs get_attribute props=C14,C15 ret=r
+//@@ fn src/xlsx/mod.rs get_attribute props=C14,C15,C06 ret=r
 //@@ r6 0
 //@@ sig
     ensures
@@ -606,7 +606,7 @@ proof fn witness_replace_cell_names() { assert(offset_small((0i64, 3i64))); }
 // C14 -- stored formula text.  ECMA-376 18.3.1.40 f (CT_CellFormula): simple content = the formula text; the text of the element
 // is its character data (Text events unescaped, CDATA sections literally, comments skipped) -- `txt_scan` above.
 // =====================================================================================================================
-//@@ fn src/xlsx/cells_reader.rs read_formula props=C14 ret=r
+//@@ fn src/xlsx/cells_reader.rs read_formula props=C14,C06 ret=r
 //@@ replace /b"is" \| b"v" =>/ Verus crashes on byte-string literal patterns (ill-typed AIR); equivalent binding + guard
 __n if __n == b"is" || __n == b"v" =>
 //@@ replace /b"f" =>/ byte-string literal pattern -> equivalent guard
